@@ -20,7 +20,7 @@ EXPLANATION = LEVEL_TEXT
 BOUNDS = {
     "quick": "square placement: all n >= 4 (unbounded); circle placement: n in [3,12]; gate and storage: disks of 1-3 triangles and a "
              "4-triangle fan, the tetrahedron surface (sphere) and an 8-triangle annulus; circle / square / custom border for the gate; storage with and "
-             "without an earlier run of the other shape on the same mesh object",
+             "without an earlier run of the other shape on the same mesh object; custom border positions on a 4-fan and on a 10-vertex nested triangle (border ids {0,9,2}); the system matrix (uniform / cotangent Laplacian, free symbolic cotangents) on two triangles and a closed 3-fan",
     "thorough": "same, plus the 3x3 grid disk for storage",
 }
 OUTSIDE = ("interior vertices at the weighted average of their neighbours; no flipped / zero-area triangle (Tutte's theorem about the "
